@@ -202,7 +202,16 @@ class Merge(Expr):
         return self.right
 
     def _divisions(self):
-        if self.merge_indexed_left and self.merge_indexed_right:
+        if (
+            self.merge_indexed_left
+            and self.merge_indexed_right
+            # otherwise lowered to a partition-wise merge of the multi-partition
+            # side with the single partition of the other side, without aligning
+            and (
+                not self._is_single_partition_broadcast
+                or self.left.npartitions == self.right.npartitions == 1
+            )
+        ):
             divisions = list(
                 unique(merge_sorted(self.left.divisions, self.right.divisions))
             )
